@@ -3,13 +3,18 @@
    the signed-window recoding of every canonical scalar; the bucket accumulation and
    running-sum reduction; the Horner combination of chunk totals; the recombination of
    per-chunk results into one MSM; additivity over any split of the point list.
-   PARTIAL: the limb-level selectors / packed digit encoding of partitionScalars
-   (shifts, masks, multi-word select) and the choice of c and of the number of splits
-   are tied to the arithmetic recoding by correspondence only (packed limbs and per-c
-   results compared through hooks), and termination of the channel protocol is C12/C20. *)
+   Limb level: C09_window_extraction proves that the selectors of partitionScalars
+   (index, shift, mask with 64-bit truncation, multi-word select, maskHigh, shiftHigh)
+   return exactly bits [c*chunk, c*chunk+c) of the value, for every 1 <= c <= 64, every
+   chunk and every value below 2^256 - so the window values feeding the carry loop are
+   those of the arithmetic recoding.
+   PARTIAL: the packed re-encoding of the signed digits into the output limbs (OR of
+   fields, msb flag for negative digits) and its read-back, the choice of c and of the
+   number of splits are tied by correspondence only (packed limbs and per-c results
+   compared through hooks); termination of the channel protocol is C12/C20. *)
 From Coq Require Import ZArith List.
 From GoIpa Require Import Model.Alg Model.Pippenger Proofs.AlgLaws Proofs.IPAProofs
-  Proofs.PippengerProofs Proofs.MsmProofs.
+  Proofs.PippengerProofs Proofs.MsmProofs Proofs.PartitionProofs.
 Import ListNotations.
 Open Scope Z_scope.
 
@@ -25,6 +30,13 @@ Proof.
   exact (conj A (conj B (conj C (recode_real_no_carry c s Hc Hs)))).
 Qed.
 Print Assumptions C09_signed_digits.
+
+(* limb-level window extraction = arithmetic window *)
+Theorem C09_window_extraction : forall c chunk s,
+  1 <= c <= 64 -> 0 <= chunk -> chunk * c < 256 -> 0 <= s < 2 ^ 256 ->
+  sel_bits s (mk_selector c chunk) = (s / 2 ^ (chunk * c)) mod 2 ^ c.
+Proof. exact window_extraction. Qed.
+Print Assumptions C09_window_extraction.
 
 Section C09.
   Context {F G : Type} (fo : FOps F) (go : GOps F G) (FL : FieldLaws fo) (GL : GroupLaws fo go).
